@@ -12,9 +12,8 @@
                      rule walk, first matching rule wins, else the reverse of the last action; allowed -> OForward,
                      otherwise ODeny403 (ERR_ACCESS_DENIED, nothing forwarded). None = squid refuses the configuration.
      line_ok         the quantifier of the property: src/dst values are IPv4 words/addresses/prefixes/ranges without
-                     bits below the mask and prefix length 1..32 (iptok_ok); dstdomain values non-empty; port values
-                     free of NUL and white space; method values that are not proper prefixes of a registered method
-                     name (meth_tok_exact)
+                     bits below the mask and prefix length 1..32 (iptok_ok: C42's cv_ok for IPv4); dstdomain values
+                     non-empty; port values free of NUL and white space; any method values
      req_ok          client and resolved addresses are 32-bit, the URL port is 0..65535
      ref_acl         set semantics of a named ACL: the union over ALL values of ALL its lines of
                        src: the client address lies in the value (ip_in: plain interval arithmetic)
@@ -29,7 +28,7 @@
                      whose literals hold ('!' = does not match); the reverse of the last line's action when none
                      applies; "deny all" when there is no such line. *)
 Require Import SquidV.Bytes SquidV.SplayModel SquidV.AccessModel SquidV.AccessProofs.
-Require SquidV.AcltreeModel.
+Require SquidV.AcltreeModel SquidV.gen.AccessMeth_gen.
 Local Open Scope N_scope.
 
 (* ===== the property ===== *)
@@ -37,23 +36,25 @@ Local Open Scope N_scope.
 (* For EVERY well-formed access section, every environment of static host entries and every SEQUENCE of requests
    (the ACL objects are shared and mutated by every lookup), each request is forwarded iff the reference
    first-match evaluation allows it, and otherwise is answered 403 without being forwarded.
-   _partial: method values that are proper prefixes of registered method names are excluded (see _refuted below),
-   as are IP values with host bits / prefix length 0 (C42: "acl x src 127.0.0.1/24" matches nothing). *)
-Theorem C45_forwarded_iff_reference_allows_partial : forall cfg e reqs outs,
+   (IP values with bits below the mask or prefix length 0 are not values of the property, as in C42:
+   "acl x src 127.0.0.1/24" matches nothing and Squid says so when it reads it.) *)
+Theorem C45_forwarded_iff_reference_allows : forall cfg e reqs outs,
   Forall line_ok cfg -> Forall (req_ok e) reqs -> access_run cfg e reqs = Some outs ->
   Forall2 (fun rq o => (o = OForward <-> ref_allows cfg e rq) /\ (o = ODeny403 <-> ~ ref_allows cfg e rq)) reqs outs.
 Proof. exact access_correct. Qed.
 
-(* The statement without the restriction on method values is false for the code as it is:
-   "acl m method GE" stores GET (HttpRequestMethodXXX compares only strlen("GE") bytes of each registered name), so
-   with "http_access deny m / http_access allow all" the method GE is forwarded although the access list denies
-   it, and GET is denied although the access list allows it. *)
-Theorem C45_forwarded_iff_reference_allows_refuted :
-  Forall (fun t => IntrangeProofs.clean t = true /\ t <> []) [b_GE] /\ ~ meth_tok_exact b_GE /\
-  meth_parse_cfg b_GE = meth_parse_req b_GET /\
-  access_run wit_cfg wit_env [wit_req b_GE] = Some [OForward] /\ ~ ref_allows wit_cfg wit_env (wit_req b_GE) /\
-  access_run wit_cfg wit_env [wit_req b_GET] = Some [ODeny403] /\ ref_allows wit_cfg wit_env (wit_req b_GET).
-Proof. exact method_prefix_witness. Qed.
+(* A method value of an acl line is read exactly as the method of a request line is (since /repo ae7c270; before,
+   HttpRequestMethodXXX compared only strlen(value) bytes and "acl m method GE" stored GET). *)
+Theorem C45_method_values_read_like_request_methods : forall tok, meth_parse_cfg tok = meth_parse_req tok.
+Proof. exact meth_cfg_req_same. Qed.
+
+(* the former witness of that defect: "acl m method GE / http_access deny m / http_access allow all" now denies the
+   method GE and forwards GET; "GE", "g", "p" are extension methods, "get" is GET *)
+Theorem C45_former_method_prefix_witness_repaired :
+  access_run wit_cfg wit_env [wit_req b_GE; wit_req b_GET] = Some [ODeny403; OForward] /\
+  meth_parse_cfg b_GE = mkMeth AccessMeth_gen.am_OTHER b_GE /\ meth_parse_cfg [103] = mkMeth AccessMeth_gen.am_OTHER [103] /\
+  meth_parse_cfg [112] = mkMeth AccessMeth_gen.am_OTHER [112] /\ meth_parse_cfg [103; 101; 116] = meth_parse_req b_GET.
+Proof. exact former_prefix_witness_repaired. Qed.
 
 (* ===== components ===== *)
 
@@ -132,8 +133,9 @@ Example C45_ex_run : access_run ex_cfg ex_env
   = Some [OForward; ODeny403; OForward; ODeny403].
 Proof. exact ex_run. Qed.
 
-Print Assumptions C45_forwarded_iff_reference_allows_partial.
-Print Assumptions C45_forwarded_iff_reference_allows_refuted.
+Print Assumptions C45_forwarded_iff_reference_allows.
+Print Assumptions C45_method_values_read_like_request_methods.
+Print Assumptions C45_former_method_prefix_witness_repaired.
 Print Assumptions C45_configuration_reading.
 Print Assumptions C45_accepted_configuration_is_typed.
 Print Assumptions C45_named_acl_matches_iff_set_semantics.
